@@ -37,26 +37,19 @@ Definition is_verdict (e : ev) : bool := match e with EvAccept | EvReject => tru
 Definition is_handler (e : ev) : bool := match e with EvHandler _ _ => true | _ => false end.
 Definition is_reply (e : ev) : bool := match e with EvReply _ _ => true | _ => false end.
 
-(* the events of the exchange that precede the auth reply *)
-Definition pre_ok (pre : list ev) : Prop :=
-  exists a b : bool, pre = (if a then [EvRecv] else []) ++ (if b then [EvMultiRecv] else []).
+(* accept-phase events other than the verdict itself *)
+Definition is_setup (e : ev) : bool := is_exchange e && negb (is_verdict e).
 
-Lemma pre_ok_not_app pre : pre_ok pre -> Forall (fun e => is_app e = false) pre.
-Proof. intros ([|] & [|] & ->); repeat constructor. Qed.
-
-Lemma pre_ok_recv pre : pre_ok pre -> count is_recv pre <= 1.
-Proof. intros ([|] & [|] & ->); cbn; lia. Qed.
-
-Lemma pre_ok_no_reply pre : pre_ok pre -> Forall (fun e => is_auth_reply e = false) pre.
-Proof. intros ([|] & [|] & ->); repeat constructor. Qed.
-
-Lemma pre_ok_no_verdict pre : pre_ok pre -> Forall (fun e => is_verdict e = false) pre.
-Proof. intros ([|] & [|] & ->); repeat constructor. Qed.
+Lemma setup_not_app e : is_setup e = true -> is_app e = false.
+Proof. destruct e; cbn; congruence. Qed.
 
 Lemma nonexchange_sub (p : ev -> bool) post :
   (forall e, is_exchange e = false -> p e = false) ->
   Forall (fun e => is_exchange e = false) post -> Forall (fun e => p e = false) post.
 Proof. intros Hp H. eapply Forall_impl; [|exact H]. exact Hp. Qed.
+
+Lemma filter_none (p : ev -> bool) t : Forall (fun e => p e = false) t -> filter p t = [].
+Proof. induction 1 as [|e t He _ IH]; cbn [filter]; [reflexivity|]. rewrite He. exact IH. Qed.
 
 Section Server.
   Variable status_code : bytes -> Z.
@@ -74,20 +67,26 @@ Section Server.
   Notation loop_frames_fuel := (loop_frames_fuel limit).
   Notation loop_frames := (loop_frames limit).
 
-  Definition accept3 : list ev := [EvAuthReply 0; EvNextAccept; EvAccept].
+  (* a well-formed accept-phase prefix: only accept-phase events, at most one read, [k] auth replies *)
+  Definition setup_ok (l : list ev) : Prop :=
+    Forall (fun e => is_setup e = true) l /\ count is_recv l <= 1 /\ count is_auth_reply l <= 1.
 
   (* What is true of the server state after any history. *)
   Inductive inv : st -> Prop :=
-  | inv_prep s : ph s = Preparing -> trace s = [] -> accepted s = false -> indexed s = false -> inv s
+  | inv_prep s :
+      (ph s = Fresh \/ ph s = Preparing) -> Forall (fun e => is_setup e = true) (trace s) ->
+      filter is_recv (trace s) = [] -> filter is_auth_reply (trace s) = [] ->
+      accepted s = false -> indexed s = false -> inv s
   | inv_acc s pre post :
-      ph s <> Preparing -> pre_ok pre -> trace s = pre ++ accept3 ++ post ->
+      (ph s = Closed \/ exists h, ph s = Running h) ->
+      trace s = pre ++ EvAccept :: post -> setup_ok pre ->
+      filter is_auth_reply pre = [EvAuthReply 0] ->
       Forall (fun e => is_exchange e = false) post ->
       accepted s = true ->
       (indexed s = true <-> exists h, ph s = Running h) ->
       inv s
-  | inv_rej s pre r :
-      ph s = Closed -> pre_ok pre -> trace s = pre ++ [r; EvReject; EvDisconnect] ->
-      (r = EvAuthReplyFailed \/ exists c, r = EvAuthReply c /\ c <> 0%Z) ->
+  | inv_rej s pre :
+      ph s = Closed -> trace s = pre ++ [EvReject; EvDisconnect] -> setup_ok pre ->
       accepted s = false -> indexed s = false -> inv s.
 
   Lemma frame_events_nonexchange g f : Forall (fun e => is_exchange e = false) (frame_events g f).
@@ -101,48 +100,108 @@ Section Server.
     - repeat constructor.
   Qed.
 
-  Lemma inv_finish_accept ck s r rest :
-    ph s = Preparing -> trace s = [] -> inv (finish_accept ck s r rest).
+  (* the events a checker run adds in front of its reply *)
+  Definition pre_of (ck : checker) (r : option recv_res) : list ev :=
+    (match r with Some _ => [EvRecv] | None => [] end) ++
+    (if Nat.leb 2 (ck_recvs ck) then [EvMultiRecv] else []).
+
+  Lemma pre_of_facts ck r :
+    Forall (fun e => is_setup e = true) (pre_of ck r) /\ count is_recv (pre_of ck r) <= 1 /\
+    filter is_auth_reply (pre_of ck r) = [].
+  Proof. unfold pre_of. destruct r; destruct (Nat.leb 2 (ck_recvs ck)); cbn; repeat split; repeat constructor. Qed.
+
+  Lemma setup_ok_build t pre mid :
+    Forall (fun e => is_setup e = true) t -> filter is_recv t = [] -> filter is_auth_reply t = [] ->
+    Forall (fun e => is_setup e = true) pre -> count is_recv pre <= 1 -> filter is_auth_reply pre = [] ->
+    Forall (fun e => is_setup e = true) mid -> filter is_recv mid = [] -> count is_auth_reply mid <= 1 ->
+    setup_ok (t ++ pre ++ mid).
   Proof.
-    intros Hp Ht. unfold Auth.finish_accept. rewrite Ht. cbn [app].
-    set (pre := (match r with Some _ => [EvRecv] | None => [] end) ++
-                (if Nat.leb 2 (ck_recvs ck) then [EvMultiRecv] else [])).
-    assert (Hpre : pre_ok pre).
-    { exists (match r with Some _ => true | None => false end), (Nat.leb 2 (ck_recvs ck)).
-      subst pre. destruct r; reflexivity. }
+    intros T1 T2 T3 P1 P2 P3 M1 M2 M3. unfold setup_ok. repeat split.
+    - repeat (apply Forall_app; split); assumption.
+    - unfold count in *. rewrite !filter_app, !app_length, T2, M2. cbn. lia.
+    - unfold count in *. rewrite !filter_app, !app_length, T3, P3. cbn. lia.
+  Qed.
+
+  Lemma inv_reject_with s rest pre mid :
+    (ph s = Fresh \/ ph s = Preparing) -> inv s ->
+    Forall (fun e => is_setup e = true) pre -> count is_recv pre <= 1 -> filter is_auth_reply pre = [] ->
+    Forall (fun e => is_setup e = true) mid -> filter is_recv mid = [] -> count is_auth_reply mid <= 1 ->
+    inv (reject_with s rest (pre ++ mid)).
+  Proof.
+    intros Hp Hi P1 P2 P3 M1 M2 M3.
+    inversion Hi as [? _ T1 T2 T3 _ _|? ? ? [Hc|(h & Hh)]|? ? Hc]; subst;
+      try (destruct Hp; congruence).
+    eapply inv_rej with (pre := trace s ++ pre ++ mid); cbn; auto.
+    - rewrite <- !app_assoc. reflexivity.
+    - apply setup_ok_build; assumption.
+  Qed.
+
+  Lemma inv_finish_accept ck s r rest :
+    ph s = Preparing -> inv s -> inv (finish_accept ck s r rest).
+  Proof.
+    intros Hp Hi. unfold Auth.finish_accept. fold (pre_of ck r).
+    destruct (pre_of_facts ck r) as (P1 & P2 & P3).
+    destruct (Nat.eqb (ck_panic ck) 2).
+    { rewrite <- (app_nil_r (pre_of ck r)). apply inv_reject_with; auto; constructor. }
     destruct (gone s).
-    - eapply inv_rej with (pre := pre) (r := EvAuthReplyFailed); cbn; auto.
-    - destruct (Z.eqb (verdict_code ck r) 0) eqn:E.
-      + eapply inv_acc with (pre := pre) (post := []); cbn; auto.
-        * discriminate.
+    { apply inv_reject_with; auto; repeat constructor. }
+    destruct (Z.eqb (verdict_code ck r) 0) eqn:E.
+    - set (aft := match ck_after ck with Some _ => [EvPlugin true] | None => [] end).
+      assert (A1 : Forall (fun e => is_setup e = true) ([EvAuthReply 0] ++ aft) /\
+                   filter is_recv ([EvAuthReply 0] ++ aft) = [] /\
+                   filter is_auth_reply ([EvAuthReply 0] ++ aft) = [EvAuthReply 0]).
+      { subst aft. destruct (ck_after ck); cbn; repeat split; repeat constructor. }
+      destruct A1 as (A1 & A2 & A3).
+      destruct (hook_fails (ck_after ck)).
+      + apply inv_reject_with; auto. unfold count. rewrite A3. cbn. lia.
+      + inversion Hi as [? _ T1 T2 T3 _ _|? ? ? [Hc|(h & Hh)]|? ? Hc]; subst; try congruence.
+        set (mid := ([EvAuthReply 0] ++ aft) ++ [EvNextAccept]).
+        assert (M1 : Forall (fun e => is_setup e = true) mid)
+          by (apply Forall_app; split; [exact A1 | repeat constructor]).
+        assert (M2 : filter is_recv mid = []) by (unfold mid; rewrite filter_app, A2; reflexivity).
+        assert (M3 : filter is_auth_reply mid = [EvAuthReply 0]) by (unfold mid; rewrite filter_app, A3; reflexivity).
+        eapply inv_acc with (pre := trace s ++ pre_of ck r ++ mid) (post := []);
+          cbn [ph trace accepted indexed]; auto.
+        * right. eauto.
+        * unfold mid. rewrite <- !app_assoc. reflexivity.
+        * apply setup_ok_build; auto. unfold count. rewrite M3. cbn. lia.
+        * rewrite !filter_app, T3, P3, M3. reflexivity.
         * split; [eauto | reflexivity].
-      + eapply inv_rej with (pre := pre) (r := EvAuthReply (verdict_code ck r)); cbn; auto.
-        right. eexists. split; [reflexivity|]. apply Z.eqb_neq. exact E.
+    - apply inv_reject_with; auto; repeat constructor.
   Qed.
 
   Lemma inv_extend s s' es :
     inv s -> accepted s = true ->
     trace s' = trace s ++ es -> Forall (fun e => is_exchange e = false) es ->
-    accepted s' = true -> ph s' <> Preparing ->
+    accepted s' = true -> (ph s' = Closed \/ exists h, ph s' = Running h) ->
     (indexed s' = true <-> exists h, ph s' = Running h) -> inv s'.
   Proof.
-    intros Hi Ha Ht Hes Ha' Hp Hix. inversion Hi as [? ? ? Hacc|? pre post Hnp Hpre Htr Hpost|? ? ? ? ? ? ? Hacc]; subst.
-    - congruence.
-    - eapply inv_acc with (pre := pre) (post := post ++ es); auto.
-      + rewrite Ht, Htr, <- !app_assoc. reflexivity.
-      + apply Forall_app. split; assumption.
-    - congruence.
+    intros Hi Ha Ht Hes Ha' Hp Hix.
+    inversion Hi as [? ? ? ? ? Hacc|? pre post Hnp Htr Hpre Hfil Hpost|? ? ? ? ? Hacc]; subst; try congruence.
+    eapply inv_acc with (pre := pre) (post := post ++ es); auto.
+    - rewrite Ht, Htr, <- app_assoc. reflexivity.
+    - apply Forall_app. split; assumption.
   Qed.
 
   Lemma inv_running_accepted s h : inv s -> ph s = Running h -> accepted s = true.
-  Proof. intros Hi Hp. inversion Hi; subst; congruence. Qed.
+  Proof. intros Hi Hp. inversion Hi as [? [H|H]| |]; subst; congruence. Qed.
 
   Lemma inv_pump_fuel ck n : forall s, inv s -> inv (pump_fuel ck n s).
   Proof.
     induction n as [|n IH]; intros s Hi; cbn [Auth.pump_fuel]; [exact Hi|].
     destruct (ph s) eqn:Hp.
+    - (* Fresh *)
+      destruct (hook_fails (ck_before ck)).
+      + rewrite <- (app_nil_r [EvPlugin false]). apply inv_reject_with; auto; repeat constructor.
+      + apply IH.
+        inversion Hi as [? _ T1 T2 T3 Ha Hx|? ? ? [Hc|(h & Hh)]|? ? Hc]; subst; try congruence.
+        apply inv_prep; cbn [ph trace accepted indexed]; auto.
+        * apply Forall_app. split; [exact T1|]. destruct (ck_before ck); repeat constructor.
+        * rewrite filter_app, T2. destruct (ck_before ck); reflexivity.
+        * rewrite filter_app, T3. destruct (ck_before ck); reflexivity.
     - (* Preparing *)
-      assert (Ht : trace s = []) by (inversion Hi; subst; congruence).
+      destruct (Nat.eqb (ck_panic ck) 1).
+      { change (@nil ev) with (@nil ev ++ @nil ev). apply inv_reject_with; auto; constructor. }
       destruct (ck_recvs ck).
       + apply IH. apply inv_finish_accept; assumption.
       + destruct (parse limit (buf s)).
@@ -151,49 +210,46 @@ Section Server.
         * apply IH. apply inv_finish_accept; assumption.
     - (* Running *)
       pose proof (inv_running_accepted _ _ Hi Hp) as Hacc.
+      assert (Hix : indexed s = true).
+      { inversion Hi as [? [H|H]|? ? ? ? ? ? ? ? ? Hiff|]; subst; try congruence. apply Hiff. eauto. }
       set (s1 := if hdr then s
                  else mkSt (Running true) (buf s) (eof s) (gone s) (accepted s) (indexed s)
                            (trace s ++ [EvHook h_pre_read_header])).
-      assert (Hi1 : inv s1 /\ accepted s1 = true /\ (exists h, ph s1 = Running h) /\ indexed s1 = indexed s).
-      { subst s1. destruct hdr.
-        - repeat split; eauto.
-        - repeat split; cbn; eauto.
-          eapply inv_extend with (s := s) (es := [EvHook h_pre_read_header]);
-            cbn; auto; try discriminate; try (solve [repeat constructor]).
-          inversion Hi; subst; try congruence.
-          split; [eauto|]. intros _. match goal with H : _ <-> _ |- _ => apply H end. eauto. }
-      destruct Hi1 as (Hi1 & Ha1 & (h1 & Hp1) & Hx1).
-      assert (Hclose : forall es, Forall (fun e => is_exchange e = false) es -> inv (close_loop s1 es)).
-      { intros es Hes. eapply inv_extend with (s := s1) (es := es); cbn; auto; try discriminate.
+      assert (Hi1 : inv s1 /\ accepted s1 = true /\ indexed s1 = true).
+      { subst s1. destruct hdr; [auto|]. repeat split; cbn; auto.
+        eapply inv_extend with (s := s) (es := [EvHook h_pre_read_header]); cbn; eauto;
+          try (solve [repeat constructor]).
+        split; [intros _; exists true; reflexivity | intros _; exact Hix]. }
+      destruct Hi1 as (Hi1 & Ha1 & Hx1).
+      assert (Hclose : forall s0 es, inv s0 -> accepted s0 = true ->
+                 Forall (fun e => is_exchange e = false) es -> inv (close_loop s0 es)).
+      { intros s0 es H0 A0 Hes. eapply inv_extend with (s := s0) (es := es); cbn; auto.
         split; [discriminate | intros (h & Hh); discriminate]. }
       destruct (parse limit (buf s)) as [| |f rest].
-      + destruct (eof s || gone s); [apply Hclose; repeat constructor | exact Hi1].
-      + apply Hclose. repeat constructor.
+      + destruct (eof s || gone s); [apply Hclose; auto; try (solve [repeat constructor]) | exact Hi1].
+      + apply Hclose; auto; try (solve [repeat constructor]).
       + set (s2 := mkSt (Running false) rest (eof s) (gone s) (accepted s) (indexed s)
                         (trace s1 ++ frame_events (gone s) f)).
         assert (Hi2 : inv s2).
-        { eapply inv_extend with (s := s1) (es := frame_events (gone s) f); cbn; auto; try discriminate.
-          - apply frame_events_nonexchange.
-          - rewrite <- Hx1. inversion Hi1; subst; try congruence.
-            split; [eauto|]. intros _. match goal with H : _ <-> _ |- _ => apply H end. eauto. }
+        { eapply inv_extend with (s := s1) (es := frame_events (gone s) f); cbn; eauto;
+            try apply frame_events_nonexchange.
+          split; [intros _; exists false; reflexivity | intros _; exact Hix]. }
         destruct (is_app_type f); [apply IH; exact Hi2|].
-        eapply inv_extend with (s := s2) (es := [EvDisconnect]);
-          cbn; auto; try discriminate; try (solve [repeat constructor]).
-        split; [discriminate | intros (h & Hh); discriminate].
+        apply Hclose; auto; try (solve [repeat constructor]).
     - exact Hi.
   Qed.
 
   Lemma inv_feed s i : inv s -> inv (feed s i).
   Proof.
     intros Hi. destruct i; cbn [feed]; [destruct (eof s || gone s); [exact Hi|]| |];
-      (inversion Hi as [| ? pre post ? ? Htr | ? pre r ? ? Htr]; subst;
+      (inversion Hi as [| ? pre post ? Htr | ? pre ? Htr]; subst;
        [apply inv_prep; cbn [ph trace accepted indexed]; auto
        | eapply inv_acc with (pre := pre) (post := post); cbn [ph trace accepted indexed]; eauto
-       | eapply inv_rej with (pre := pre) (r := r); cbn [ph trace accepted indexed]; eauto]).
+       | eapply inv_rej with (pre := pre); cbn [ph trace accepted indexed]; eauto]).
   Qed.
 
   Lemma inv_init : inv init.
-  Proof. apply inv_prep; reflexivity. Qed.
+  Proof. apply inv_prep; cbn; auto. Qed.
 
   Lemma inv_run ck ins : inv (run ck ins).
   Proof.
@@ -204,29 +260,17 @@ Section Server.
   Qed.
 
   (* ---- consequences of the invariant ---- *)
-  Lemma exchange_not_app e : is_app e = true -> is_exchange e = false.
-  Proof. destruct e; cbn; congruence. Qed.
+  Lemma setup_all_not_app l : Forall (fun e => is_setup e = true) l -> Forall (fun e => is_app e = false) l.
+  Proof. intros H. eapply Forall_impl; [|exact H]. apply setup_not_app. Qed.
 
-  Lemma inv_app_after_accept s tr1 e tr2 :
-    inv s -> trace s = tr1 ++ e :: tr2 -> is_app e = true ->
-    exists pre b1, pre_ok pre /\ tr1 = pre ++ accept3 ++ b1.
+  Lemma not_accepted_no_app ck ins :
+    accepted (run ck ins) = false -> Forall (fun e => is_app e = false) (trace (run ck ins)).
   Proof.
-    intros Hi Ht He. inversion Hi as [? ? Hnil|? pre post Hnp Hpre Htr Hpost|? pre r ? Hpre Htr Hr]; subst.
-    - rewrite Hnil in Ht. destruct tr1; discriminate.
-    - rewrite Htr, app_assoc in Ht.
-      destruct (split_after_prefix (pre ++ accept3) tr1 e tr2 post (eq_sym Ht)) as (b1 & -> & _).
-      + intros Hin. apply in_app_or in Hin. destruct Hin as [Hin|Hin].
-        * pose proof (pre_ok_not_app _ Hpre) as Hf. rewrite Forall_forall in Hf.
-          rewrite (Hf _ Hin) in He. discriminate.
-        * cbn in Hin. destruct Hin as [E|[E|[E|[]]]]; subst e; cbn in He; discriminate.
-      + exists pre, b1. split; [exact Hpre|]. rewrite <- app_assoc. reflexivity.
-    - exfalso. rewrite Htr in Ht.
-      assert (Hin : In e (pre ++ [r; EvReject; EvDisconnect])) by (rewrite Ht; apply in_elt).
-      apply in_app_or in Hin. destruct Hin as [Hin|Hin].
-      + pose proof (pre_ok_not_app _ Hpre) as Hf. rewrite Forall_forall in Hf.
-        rewrite (Hf _ Hin) in He. discriminate.
-      + cbn in Hin. destruct Hin as [E|[E|[E|[]]]]; subst e; cbn in He; try discriminate.
-        destruct Hr as [->|(c & -> & _)]; discriminate.
+    intros Ha. pose proof (inv_run ck ins) as Hi.
+    inversion Hi as [? ? T1|? ? ? ? ? ? ? ? Hacc|? pre ? Htr (P1 & _)]; subst.
+    - apply setup_all_not_app. exact T1.
+    - congruence.
+    - rewrite Htr. apply Forall_app. split; [apply setup_all_not_app; exact P1 | repeat constructor].
   Qed.
 
   Lemma no_app_before_accept ck ins tr1 e tr2 :
@@ -234,68 +278,54 @@ Section Server.
     In (EvAuthReply 0) tr1 /\ In EvAccept tr1 /\ accepted (run ck ins) = true.
   Proof.
     intros Ht He. pose proof (inv_run ck ins) as Hi.
-    destruct (inv_app_after_accept _ _ _ _ Hi Ht He) as (pre & b1 & _ & ->).
-    split; [|split].
-    - apply in_or_app. right. cbn. auto.
-    - apply in_or_app. right. cbn. auto.
-    - inversion Hi as [? ? Hnil|? ? ? ? ? ? ? Hacc|? pre' r ? Hpre Htr Hr]; subst; auto.
-      + rewrite Hnil in Ht. destruct pre; discriminate.
-      + exfalso. rewrite Htr in Ht.
-        assert (Hin : In e (pre' ++ [r; EvReject; EvDisconnect])) by (rewrite Ht; apply in_elt).
-        apply in_app_or in Hin. destruct Hin as [Hin|Hin].
-        * pose proof (pre_ok_not_app _ Hpre) as Hf. rewrite Forall_forall in Hf.
-          rewrite (Hf _ Hin) in He. discriminate.
-        * cbn in Hin. destruct Hin as [E|[E|[E|[]]]]; subst e; cbn in He; try discriminate.
-          destruct Hr as [->|(c & -> & _)]; discriminate.
+    destruct (accepted (run ck ins)) eqn:Ha.
+    - inversion Hi as [|? pre post ? Htr (P1 & _) Hfil|]; subst; try congruence.
+      rewrite Htr in Ht. change (pre ++ EvAccept :: post) with (pre ++ [EvAccept] ++ post) in Ht.
+      rewrite app_assoc in Ht.
+      destruct (split_after_prefix (pre ++ [EvAccept]) tr1 e tr2 post (eq_sym Ht)) as (b1 & -> & _).
+      + intros Hin. apply in_app_or in Hin. destruct Hin as [Hin|[<-|[]]]; [|discriminate].
+        pose proof (setup_all_not_app _ P1) as Hf. rewrite Forall_forall in Hf.
+        rewrite (Hf _ Hin) in He. discriminate.
+      + repeat split.
+        * apply in_or_app. left. apply in_or_app. left.
+          assert (Hin : In (EvAuthReply 0) (filter is_auth_reply pre)) by (rewrite Hfil; left; reflexivity).
+          apply filter_In in Hin. apply Hin.
+        * apply in_or_app. left. apply in_or_app. right. left. reflexivity.
+    - exfalso. pose proof (not_accepted_no_app ck ins Ha) as Hf. rewrite Ht in Hf.
+      apply Forall_app in Hf. destruct Hf as [_ Hf]. inversion Hf; subst. congruence.
   Qed.
 
-  Lemma not_accepted_no_app ck ins :
-    accepted (run ck ins) = false -> Forall (fun e => is_app e = false) (trace (run ck ins)).
-  Proof.
-    intros Ha. pose proof (inv_run ck ins) as Hi.
-    inversion Hi as [? ? Hnil|? ? ? ? ? ? ? Hacc|? pre r ? Hpre Htr Hr]; subst.
-    - rewrite Hnil. constructor.
-    - congruence.
-    - rewrite Htr. apply Forall_app. split; [apply pre_ok_not_app; exact Hpre|].
-      destruct Hr as [->|(c & -> & _)]; repeat constructor.
-  Qed.
+  Lemma count_none' p t : Forall (fun e => p e = false) t -> count p t = 0.
+  Proof. intros H. unfold count. rewrite filter_none by exact H. reflexivity. Qed.
+
+  Lemma setup_no_verdict l : Forall (fun e => is_setup e = true) l -> Forall (fun e => is_verdict e = false) l.
+  Proof. intros H. eapply Forall_impl; [|exact H]. intros e; destruct e; cbn; congruence. Qed.
 
   Lemma exchange_once ck ins :
     let t := trace (run ck ins) in
     count is_recv t <= 1 /\ count is_auth_reply t <= 1 /\ count is_verdict t <= 1 /\
     (In EvAccept t ->
-       exists pre post, t = pre ++ [EvAuthReply 0; EvNextAccept; EvAccept] ++ post /\
+       exists pre post, t = pre ++ EvAccept :: post /\
          Forall (fun e => is_app e = false) pre /\
+         filter is_auth_reply pre = [EvAuthReply 0] /\
          Forall (fun e => is_exchange e = false) post).
   Proof.
     cbn zeta. pose proof (inv_run ck ins) as Hi.
-    inversion Hi as [? ? Hnil|? pre post Hnp Hpre Htr Hpost|? pre r ? Hpre Htr Hr]; subst.
-    - rewrite Hnil. cbn. repeat split; try lia; try (intros []).
+    inversion Hi as [? ? T1 T2 T3|? pre post ? Htr (P1 & P2 & P3) Hfil Hpost|? pre ? Htr (P1 & P2 & P3)]; subst.
+    - unfold count. rewrite T2, T3. rewrite (filter_none is_verdict) by (apply setup_no_verdict; exact T1).
+      cbn. repeat split; try lia. intros Hin.
+      pose proof (setup_no_verdict _ T1) as Hf. rewrite Forall_forall in Hf. specialize (Hf _ Hin). discriminate.
+    - rewrite Htr. change (pre ++ EvAccept :: post) with (pre ++ [EvAccept] ++ post). rewrite !count_app.
+      rewrite (count_none' is_recv post), (count_none' is_auth_reply post), (count_none' is_verdict post);
+        try (eapply nonexchange_sub; [|exact Hpost]; intros e; destruct e; cbn; congruence).
+      rewrite (count_none' is_verdict pre) by (apply setup_no_verdict; exact P1).
+      cbn. repeat split; try lia. intros _. exists pre, post. repeat split; auto.
+      apply setup_all_not_app. exact P1.
     - rewrite Htr. rewrite !count_app.
-      assert (P1 : Forall (fun e => is_recv e = false) post)
-        by (eapply nonexchange_sub; [|exact Hpost]; intros e; destruct e; cbn; congruence).
-      assert (P2 : Forall (fun e => is_auth_reply e = false) post)
-        by (eapply nonexchange_sub; [|exact Hpost]; intros e; destruct e; cbn; congruence).
-      assert (P3 : Forall (fun e => is_verdict e = false) post)
-        by (eapply nonexchange_sub; [|exact Hpost]; intros e; destruct e; cbn; congruence).
-      rewrite (count_none is_recv post P1), (count_none is_auth_reply post P2), (count_none is_verdict post P3).
-      rewrite (count_none is_auth_reply pre) by (apply pre_ok_no_reply; exact Hpre).
-      rewrite (count_none is_verdict pre) by (apply pre_ok_no_verdict; exact Hpre).
-      pose proof (pre_ok_recv _ Hpre). cbn. repeat split; try lia.
-      intros _. exists pre, post. repeat split; auto. apply pre_ok_not_app. exact Hpre.
-    - rewrite Htr. rewrite !count_app.
-      rewrite (count_none is_auth_reply pre) by (apply pre_ok_no_reply; exact Hpre).
-      rewrite (count_none is_verdict pre) by (apply pre_ok_no_verdict; exact Hpre).
-      pose proof (pre_ok_recv _ Hpre).
-      repeat split.
-      + destruct Hr as [->|(c & -> & _)]; cbn; lia.
-      + destruct Hr as [->|(c & -> & _)]; cbn; lia.
-      + destruct Hr as [->|(c & -> & _)]; cbn; lia.
-      + intros Hin. exfalso. apply in_app_or in Hin. destruct Hin as [Hin|Hin].
-        * pose proof (pre_ok_no_verdict _ Hpre) as Hf. rewrite Forall_forall in Hf.
-          specialize (Hf _ Hin). discriminate.
-        * cbn in Hin. destruct Hin as [E|[E|[E|[]]]]; try discriminate.
-          destruct Hr as [?|(c & ? & _)]; subst r; discriminate.
+      rewrite (count_none' is_verdict pre) by (apply setup_no_verdict; exact P1).
+      cbn. repeat split; try lia. intros Hin. exfalso.
+      apply in_app_or in Hin. destruct Hin as [Hin|[|[|[]]]]; try discriminate.
+      pose proof (setup_no_verdict _ P1) as Hf. rewrite Forall_forall in Hf. specialize (Hf _ Hin). discriminate.
   Qed.
 
   Lemma rejected_closed_unindexed ck ins :
@@ -304,14 +334,11 @@ Section Server.
     Forall (fun e => is_app e = false) (trace (run ck ins)).
   Proof.
     intros Hin. pose proof (inv_run ck ins) as Hi.
-    inversion Hi as [? ? Hnil|? pre post Hnp Hpre Htr Hpost|? pre r Hc Hpre Htr Hr Ha Hx]; subst.
-    - rewrite Hnil in Hin. destruct Hin.
-    - exfalso. rewrite Htr in Hin. apply in_app_or in Hin. destruct Hin as [Hin|Hin].
-      + pose proof (pre_ok_no_verdict _ Hpre) as Hf. rewrite Forall_forall in Hf.
-        specialize (Hf _ Hin). discriminate.
-      + apply in_app_or in Hin. destruct Hin as [Hin|Hin].
-        * cbn in Hin. destruct Hin as [|[|[|[]]]]; discriminate.
-        * rewrite Forall_forall in Hpost. specialize (Hpost _ Hin). discriminate.
+    inversion Hi as [? ? T1|? pre post ? Htr (P1 & _) ? Hpost|? pre Hc Htr ? Ha Hx]; subst.
+    - pose proof (setup_no_verdict _ T1) as Hf. rewrite Forall_forall in Hf. specialize (Hf _ Hin). discriminate.
+    - exfalso. rewrite Htr in Hin. apply in_app_or in Hin. destruct Hin as [Hin|[|Hin]]; try discriminate.
+      + pose proof (setup_no_verdict _ P1) as Hf. rewrite Forall_forall in Hf. specialize (Hf _ Hin). discriminate.
+      + rewrite Forall_forall in Hpost. specialize (Hpost _ Hin). discriminate.
     - repeat split; auto. apply not_accepted_no_app. exact Ha.
   Qed.
 
@@ -320,8 +347,75 @@ Section Server.
     accepted (run ck ins) = true /\ exists h, ph (run ck ins) = Running h.
   Proof.
     intros Hx. pose proof (inv_run ck ins) as Hi.
-    inversion Hi as [|? ? ? ? ? ? ? Hacc Hiff|]; subst; try congruence.
+    inversion Hi as [|? ? ? ? ? ? ? ? Hacc Hiff|]; subst; try congruence.
     split; [exact Hacc | apply Hiff; exact Hx].
+  Qed.
+
+  (* a failing hook anywhere in the PostAccept chain: never accepted *)
+  Definition chain_fails (ck : checker) : bool :=
+    hook_fails (ck_before ck) || (Nat.eqb (ck_panic ck) 1 || Nat.eqb (ck_panic ck) 2) || hook_fails (ck_after ck).
+
+  Lemma finish_accept_fails ck s r rest :
+    chain_fails ck = true -> hook_fails (ck_before ck) = false -> Nat.eqb (ck_panic ck) 1 = false ->
+    accepted (finish_accept ck s r rest) = false /\ ph (finish_accept ck s r rest) = Closed.
+  Proof.
+    unfold chain_fails, Auth.finish_accept. intros Hc Hb H1. rewrite Hb in Hc. cbn [orb] in Hc.
+    destruct (Nat.eqb (ck_panic ck) 2) eqn:E2; [cbn; auto|].
+    destruct (gone s); [cbn; auto|].
+    destruct (Z.eqb _ 0); [|cbn; auto].
+    destruct (hook_fails (ck_after ck)) eqn:Ha; [cbn; auto|].
+    rewrite ?H1, ?E2, ?Ha in Hc. discriminate.
+  Qed.
+
+  Definition good (ck : checker) (s : st) : Prop :=
+    accepted s = false /\
+    (ph s = Fresh \/ (ph s = Preparing /\ hook_fails (ck_before ck) = false) \/ ph s = Closed).
+
+  Lemma pump_fuel_closed ck n s : ph s = Closed -> pump_fuel ck n s = s.
+  Proof. intros Hp. destruct n; cbn [Auth.pump_fuel]; [reflexivity | rewrite Hp; reflexivity]. Qed.
+
+  Lemma pump_fuel_good ck n : forall s, chain_fails ck = true -> good ck s -> good ck (pump_fuel ck n s).
+  Proof.
+    induction n as [|n IH]; intros s Hc Hg; cbn [Auth.pump_fuel]; [exact Hg|].
+    destruct Hg as [Ha Hp]. destruct (ph s) eqn:P.
+    - destruct (hook_fails (ck_before ck)) eqn:Hb.
+      + split; [reflexivity | right; right; reflexivity].
+      + apply IH; [exact Hc|]. split; [exact Ha | right; left; split; [reflexivity | exact Hb]].
+    - destruct Hp as [Hp|[[_ Hb]|Hp]]; try discriminate.
+      destruct (Nat.eqb (ck_panic ck) 1) eqn:E1; [split; [reflexivity | right; right; reflexivity]|].
+      assert (Hfin : forall r rest, good ck (pump_fuel ck n (finish_accept ck s r rest))).
+      { intros. destruct (finish_accept_fails ck s r rest Hc Hb E1) as [A C].
+        rewrite pump_fuel_closed by exact C. split; [exact A | right; right; exact C]. }
+      destruct (ck_recvs ck); [apply Hfin|].
+      destruct (parse limit (buf s)); [destruct (eof s || gone s); [apply Hfin|] | apply Hfin | apply Hfin].
+      split; [exact Ha | right; left; split; [exact P | exact Hb]].
+    - destruct Hp as [Hp|[[Hp _]|Hp]]; discriminate.
+    - split; [exact Ha | right; right; exact P].
+  Qed.
+
+  Lemma feed_good ck s i : good ck s -> good ck (feed s i).
+  Proof.
+    intros [Ha Hp]. destruct i; cbn [feed]; [destruct (eof s || gone s); [split; assumption|]| |];
+      split; cbn [accepted ph]; assumption.
+  Qed.
+
+  Lemma failing_chain_never_accepts ck ins :
+    chain_fails ck = true ->
+    accepted (run ck ins) = false /\ indexed (run ck ins) = false /\
+    Forall (fun e => is_app e = false) (trace (run ck ins)).
+  Proof.
+    intros Hc.
+    assert (Hg : good ck (run ck ins)).
+    { unfold Auth.run.
+      assert (H0 : good ck (pump ck init)).
+      { apply pump_fuel_good; [exact Hc|]. split; [reflexivity | left; reflexivity]. }
+      revert H0. generalize (pump ck init). induction ins as [|i ins IH]; intros s Hs; cbn [fold_left].
+      - exact Hs.
+      - apply IH. unfold Auth.step, Auth.pump. apply pump_fuel_good; [exact Hc|]. apply feed_good. exact Hs. }
+    destruct Hg as [Ha _]. split; [exact Ha|]. split.
+    - destruct (indexed (run ck ins)) eqn:Hx; [|reflexivity].
+      destruct (indexed_only_running _ _ Hx) as [A _]. congruence.
+    - apply not_accepted_no_app. exact Ha.
   Qed.
 
   (* ---- termination of the connection after the client's EOF ---- *)
@@ -346,32 +440,37 @@ Section Server.
     intros E; inversion E; subst. rewrite skipn_length. lia.
   Qed.
 
-  Lemma pump_fuel_closed ck n s : ph s = Closed -> pump_fuel ck n s = s.
-  Proof. intros Hp. destruct n; cbn [Auth.pump_fuel]; [reflexivity | rewrite Hp; reflexivity]. Qed.
-
   Lemma finish_accept_shape ck s r rest :
     let s' := finish_accept ck s r rest in
     buf s' = rest /\ eof s' = eof s /\ (ph s' = Closed \/ ph s' = Running false).
   Proof.
-    cbn zeta. unfold Auth.finish_accept. destruct (gone s); [cbn; auto|].
-    destruct (Z.eqb _ 0); cbn; auto.
+    cbn zeta. unfold Auth.finish_accept, reject_with.
+    destruct (Nat.eqb (ck_panic ck) 2); [cbn; auto|].
+    destruct (gone s); [cbn; auto|].
+    destruct (Z.eqb _ 0); [|cbn; auto].
+    destruct (hook_fails (ck_after ck)); cbn; auto.
   Qed.
 
   Lemma pump_fuel_eof_closes ck n : forall s,
     eof s = true ->
+    (ph s = Fresh -> length (buf s) + 3 <= n) ->
     (ph s = Preparing -> length (buf s) + 2 <= n) ->
     (forall h, ph s = Running h -> length (buf s) + 1 <= n) ->
     ph (pump_fuel ck n s) = Closed.
   Proof.
-    induction n as [|n IH]; intros s He Hp Hr.
-    - destruct (ph s) eqn:P; [specialize (Hp eq_refl); lia | specialize (Hr _ eq_refl); lia | exact P].
+    induction n as [|n IH]; intros s He Hf Hp Hr.
+    - destruct (ph s) eqn:P; [specialize (Hf eq_refl); lia | specialize (Hp eq_refl); lia
+                              | specialize (Hr _ eq_refl); lia | exact P].
     - cbn [Auth.pump_fuel]. destruct (ph s) eqn:P.
-      + specialize (Hp eq_refl).
+      + specialize (Hf eq_refl). destruct (hook_fails (ck_before ck)); [reflexivity|].
+        apply IH; cbn [ph buf eof]; [exact He | discriminate | intros _; lia | discriminate].
+      + specialize (Hp eq_refl). destruct (Nat.eqb (ck_panic ck) 1); [reflexivity|].
         assert (Hfin : forall r rest, length rest <= length (buf s) ->
                    ph (pump_fuel ck n (finish_accept ck s r rest)) = Closed).
         { intros r rest Hl. destruct (finish_accept_shape ck s r rest) as (Hb & He' & [Hc|Hrun]).
           - rewrite pump_fuel_closed; assumption.
-          - apply IH; [congruence | intros Hx; congruence |]. intros h _. rewrite Hb. lia. }
+          - apply IH; [congruence | intros Hx; congruence | intros Hx; congruence |].
+            intros h _. rewrite Hb. lia. }
         destruct (ck_recvs ck); [apply Hfin; lia|].
         destruct (parse limit (buf s)) eqn:Pa.
         * rewrite He. cbn [orb]. apply Hfin; lia.
@@ -383,22 +482,8 @@ Section Server.
         * reflexivity.
         * destruct (is_app_type f); [|reflexivity].
           apply parse_rest_shorter in Pa.
-          apply IH; cbn; [exact He | discriminate | intros; lia].
+          apply IH; cbn; [exact He | discriminate | discriminate | intros; lia].
       + exact P.
-  Qed.
-
-  Lemma pump_preserves_eof ck n : forall s, eof (pump_fuel ck n s) = eof s.
-  Proof.
-    induction n as [|n IH]; intros s; cbn [Auth.pump_fuel]; [reflexivity|].
-    destruct (ph s); [| |reflexivity].
-    - assert (Hfin : forall r rest, eof (pump_fuel ck n (finish_accept ck s r rest)) = eof s).
-      { intros. rewrite IH. apply finish_accept_shape. }
-      destruct (ck_recvs ck); [apply Hfin|].
-      destruct (parse limit (buf s)); [destruct (eof s || gone s); [apply Hfin|reflexivity] | apply Hfin | apply Hfin].
-    - destruct (parse limit (buf s)).
-      + destruct (eof s || gone s); destruct hdr; reflexivity.
-      + destruct hdr; reflexivity.
-      + destruct (is_app_type f); [rewrite IH; reflexivity | reflexivity].
   Qed.
 
   Lemma step_closed_stays ck s i : ph s = Closed -> step ck s i = feed s i /\ ph (feed s i) = Closed.
@@ -489,50 +574,61 @@ Section Server.
     - destruct (is_app_type f); discriminate.
   Qed.
 
-  (* One complete first frame [f], any bytes [rest] behind it, then the client's EOF. *)
+  (* One complete first frame [f], any bytes [rest] behind it, then the client's EOF; no hook
+     before the checker and a checker that does not panic (those cases never accept, see
+     failing_chain_never_accepts); any hook behind the checker. *)
   Lemma pipelined_iff ck s f rest :
-    ck_recvs ck = 1%nat -> parse limit s = PFrame f rest ->
+    ck_recvs ck = 1%nat -> ck_before ck = None -> ck_panic ck = 0%nat ->
+    parse limit s = PFrame f rest ->
     let fin := run ck [Bytes s; Eof] in
-    let ok := Z.eqb (verdict_code ck (Some (recv_of_frame f))) 0 in
+    let ok := Z.eqb (verdict_code ck (Some (recv_of_frame f))) 0 && negb (hook_fails (ck_after ck)) in
     accepted fin = ok /\
     filter hr (trace fin) =
       if ok then flat_map (fun g => filter hr (frame_events false g)) (loop_frames rest) else [].
   Proof.
-    intros Hr Hpa. cbn zeta.
-    assert (H0 : pump ck init = init).
-    { unfold Auth.pump. cbn [buf init length Auth.pump_fuel ph]. rewrite Hr. reflexivity. }
+    intros Hr Hb Hpn Hpa. cbn zeta.
+    set (i0 := mkSt Preparing [] false false false false []).
+    assert (H0 : pump ck init = i0).
+    { unfold Auth.pump. cbn [buf init length]. cbn [Auth.pump_fuel]. cbn [ph init].
+      rewrite Hb. cbn [hook_fails]. cbn [Auth.pump_fuel]. cbn [ph buf eof gone accepted indexed trace init app].
+      rewrite Hpn. cbn [Nat.eqb]. rewrite Hr. reflexivity. }
     set (s0 := mkSt Preparing s false false false false []).
-    assert (Hmid : step ck init (Bytes s) =
-                   pump_fuel ck (S (length s)) (Auth.finish_accept ck s0 (Some (recv_of_frame f)) rest)).
-    { unfold Auth.step. cbn [feed init eof gone orb ph buf accepted indexed trace app]. fold s0.
-      unfold Auth.pump. cbn [buf s0]. cbn [Auth.pump_fuel]. cbn [ph s0]. rewrite Hr.
+    assert (Hmid : step ck i0 (Bytes s) =
+                   pump_fuel ck (S (S (length s))) (Auth.finish_accept ck s0 (Some (recv_of_frame f)) rest)).
+    { unfold Auth.step. cbn [feed i0 eof gone orb ph buf accepted indexed trace app]. fold s0.
+      unfold Auth.pump. cbn [buf s0]. cbn [Auth.pump_fuel]. cbn [ph s0]. rewrite Hpn. cbn [Nat.eqb]. rewrite Hr.
       cbn [buf s0]. rewrite Hpa. reflexivity. }
     unfold Auth.run. cbn [fold_left]. rewrite H0, Hmid. clear Hmid.
     pose proof (parse_rest_shorter _ _ _ Hpa) as Hs.
-    unfold Auth.finish_accept. cbn [gone s0 trace app eof].
-    rewrite Hr. cbn [Nat.leb app].
-    destruct (Z.eqb (verdict_code ck (Some (recv_of_frame f))) 0) eqn:V.
-    - set (sa := mkSt (Running false) rest false false true true _).
-      destruct (loop_trace ck (S (length s)) sa false) as (Ht & Ha & Hph);
-        [reflexivity | reflexivity | cbn; lia |].
-      change (buf sa) with rest in Ht.
-      rewrite (loop_frames_fuel_irrel (S (length s)) (S (length rest)) rest) in Ht by lia.
-      change (loop_frames_fuel (S (length rest)) rest) with (loop_frames rest) in Ht.
-      set (sb := pump_fuel ck (S (length s)) sa) in *.
-      assert (Hsa : filter hr (trace sa) = []) by reflexivity.
-      rewrite Hsa in Ht. cbn [app] in Ht.
-      destruct Hph as [Hc|((h' & Hh') & Hg' & Hlf)].
-      + destruct (step_closed_stays ck sb Eof Hc) as [-> _]. cbn [feed accepted trace].
-        split; [exact Ha | exact Ht].
-      + unfold Auth.step, Auth.pump.
-        set (sc := feed sb Eof).
-        assert (Hbuf : buf sc = buf sb) by reflexivity.
-        destruct (pump_blocked_adds_nothing ck (S (S (length (buf sc)))) sc h') as (Hf & Hac).
-        * exact Hh'.
-        * exact Hg'.
-        * apply Hlf.
-        * lia.
-        * rewrite Hf, Hac. split; [exact Ha | exact Ht].
+    unfold Auth.finish_accept, reject_with. cbn [gone s0 trace app eof].
+    rewrite Hr, Hpn. cbn [Nat.leb Nat.eqb app].
+    destruct (Z.eqb (verdict_code ck (Some (recv_of_frame f))) 0) eqn:V; cbn [andb].
+    - destruct (hook_fails (ck_after ck)) eqn:Haf; cbn [negb].
+      + set (sr := mkSt Closed rest false false false false _).
+        rewrite pump_fuel_closed by reflexivity.
+        destruct (step_closed_stays ck sr Eof eq_refl) as [-> _]. cbn. split; [reflexivity|].
+        rewrite filter_app. destruct (ck_after ck); reflexivity.
+      + set (sa := mkSt (Running false) rest false false true true _).
+        destruct (loop_trace ck (S (S (length s))) sa false) as (Ht & Ha & Hph);
+          [reflexivity | reflexivity | cbn; lia |].
+        change (buf sa) with rest in Ht.
+        rewrite (loop_frames_fuel_irrel (S (S (length s))) (S (length rest)) rest) in Ht by lia.
+        change (loop_frames_fuel (S (length rest)) rest) with (loop_frames rest) in Ht.
+        set (sb := pump_fuel ck (S (S (length s))) sa) in *.
+        assert (Hsa : filter hr (trace sa) = []).
+        { unfold sa. cbn [trace]. destruct (ck_after ck); reflexivity. }
+        rewrite Hsa in Ht. cbn [app] in Ht.
+        destruct Hph as [Hc|((h' & Hh') & Hg' & Hlf)].
+        * destruct (step_closed_stays ck sb Eof Hc) as [-> _]. cbn [feed accepted trace].
+          split; [exact Ha | exact Ht].
+        * unfold Auth.step, Auth.pump.
+          set (sc := feed sb Eof).
+          destruct (pump_blocked_adds_nothing ck (S (S (S (length (buf sc))))) sc h') as (Hf & Hac).
+          -- exact Hh'.
+          -- exact Hg'.
+          -- apply Hlf.
+          -- lia.
+          -- rewrite Hf, Hac. split; [exact Ha | exact Ht].
     - set (sr := mkSt Closed rest false false false false _).
       rewrite pump_fuel_closed by reflexivity.
       destruct (step_closed_stays ck sr Eof eq_refl) as [-> _]. cbn. auto.
